@@ -965,22 +965,16 @@ struct json_object *json_tokener_parse_ex(struct json_tokener *tok, const char *
 				   so we need to re-generate it based on the saved string so far.
 				 */
 				char *e_loc = strchr(tok->pb->buf, 'e');
+				char last_saved_char = tok->pb->buf[printbuf_length(tok->pb) - 1];
 				if (!e_loc)
 					e_loc = strchr(tok->pb->buf, 'E');
 				if (e_loc)
-				{
-					char *last_saved_char =
-					    &tok->pb->buf[printbuf_length(tok->pb) - 1];
 					is_exponent = 1;
-					pos_sign_ok = neg_sign_ok = 1;
-					/* If the "e" isn't at the end, we can't start with a '-' */
-					if (e_loc != last_saved_char)
-					{
-						neg_sign_ok = 0;
-						pos_sign_ok = 0;
-					}
-					// else leave it set to 1, i.e. start of the new input
-				}
+				/* A sign can only directly follow the exponent marker or
+				 * the decimal point, exactly as in the loop below.
+				 */
+				neg_sign_ok = pos_sign_ok = (last_saved_char == 'e' || last_saved_char == 'E' ||
+				                             last_saved_char == '.');
 			}
 
 			while (c && ((c >= '0' && c <= '9') ||
@@ -1038,7 +1032,7 @@ struct json_object *json_tokener_parse_ex(struct json_tokener *tok, const char *
 				printbuf_memappend_checked(tok->pb, case_start, case_len);
 
 			// Check for -Infinity
-			if (tok->pb->buf[0] == '-' && case_len <= 1 && (c == 'i' || c == 'I'))
+			if (tok->pb->buf[0] == '-' && printbuf_length(tok->pb) == 1 && (c == 'i' || c == 'I'))
 			{
 				state = json_tokener_state_inf;
 				tok->st_pos = 0;
